@@ -21,7 +21,8 @@ BINDINGS = ["visible-undeclared", "declared-parameter", "local-assigned-earlier"
             "local-def-earlier", "local-class-earlier", "tuple-unpack-earlier", "starred-unpack-earlier", "walrus-earlier", "match-capture-earlier", "assigned-in-match-case-earlier",
             "assigned-in-while-body-earlier", "nested-with-as-tuple-earlier", "async-for-target-earlier", "assigned-in-except-star-earlier", "assigned-earlier-and-rebound-later", "augmented-earlier-and-rebound-later",
             "visible-undeclared-fixture-of-the-same-file-defined-above", "visible-undeclared-fixture-of-the-same-file-defined-below",
-            "declared-as-varargs", "declared-as-kwargs", "visible-undeclared-fixture-the-conftest-star-imports"]
+            "declared-as-varargs", "declared-as-kwargs", "visible-undeclared-fixture-the-conftest-star-imports",
+            "module-level-import-inside-try", "module-level-assignment-inside-if"]
 FLAVOURS = ["test", "fixture", "fixture-named-like-a-test"]
 DIMS = [("shape", SHAPES), ("body", BODIES), ("binding", BINDINGS), ("flavour", FLAVOURS)]
 
@@ -62,6 +63,8 @@ def build(a):
     if bind == "visible-undeclared-fixture-of-the-same-file-defined-above": L += ["@pytest.fixture", "def localfx():", "    return 1", ""]
     if bind == "module-level-assignment": L += ["%s = 1" % N, ""]
     if bind == "module-level-import": L += ["from somewhere import %s" % N, ""]
+    if bind == "module-level-import-inside-try": L += ["try:", "    from somewhere import %s" % N, "except ImportError:", "    %s = None" % N, ""]
+    if bind == "module-level-assignment-inside-if": L += ["if True:", "    %s = 1" % N, ""]
     if bind == "module-level-def": L += ["def %s():" % N, "    return 1", ""]
     ind = ""
     if shape == "method":
